@@ -111,6 +111,7 @@ theorem convTextNF_spec (s : Spec) (a : Option Arg) (t : Bytes) (h : convTextNF 
     cases a with
     | dbl bits => simp [convTextNF] at h
     | str str => simpa [convTextNF, convText, specConv] using h
+    | gstr g => simpa [convTextNF, convText, specConv] using h
     | int raw =>
       simp only [convTextNF, convText] at h
       simp only [specConv]
@@ -127,6 +128,7 @@ theorem convTextNF_model (s : Spec) (a : Option Arg) (t : Bytes) (h : convTextNF
   | some a => cases a with
     | dbl bits => simp [convTextNF] at h
     | str str => exact h
+    | gstr g => exact h
     | int raw => exact h
 
 /-- **C09, integer / character / string / pointer conversions.**  For every format built from the
@@ -214,6 +216,9 @@ example : genFormat convTextNF 12 [37, 43, 46, 51, 100, 32, 37, 35, 111, 32, 37,
 -- `%lc` of U+20AC in a field of five, left justified: the three bytes of its UTF-8 form, then two spaces
 example : formatOne { conv := 'c', len := .l, width := 5, flags := { dash := true } } (.int 0x20AC) =
     some [0xE2, 0x82, 0xAC, 32, 32] := by decide
+-- `%.4S` of "aä€" (1+2+3 bytes): four bytes would cut the third code point, so two code points remain; width 4 counts code points
+example : formatOne { conv := 'S', prec := some 4, width := 4 } (.gstr [97, 0xC3, 0xA4, 0xE2, 0x82, 0xAC]) =
+    some [32, 32, 97, 0xC3, 0xA4] := by decide
 -- the most negative value and zero with precision zero
 example : fmtSigned { conv := 'd', len := .ll } (2 ^ 63) = ascii "-9223372036854775808" := by
   simp [fmtSigned, signedArg, LenMod.bits, signBytes, precDigits, padField, natDigits, digitChar, ascii]
